@@ -36,9 +36,15 @@ CONSTANTS DEV_PriceFromNextBar,     \* uniswap: price(r) = close(r + 1)  (shift(
           DEV_StatusRowNext,        \* aave: the status of bar i is the row after bar i's
           DEV_AccountPriceNext,     \* actuator: every third account row is valued at the next bar's prices
           DEV_StatusWrittenBack,    \* uniswap: the status row (+ own liquidity) is stored into market.data
-          DEV_BookSharedWithData    \* deribit: a fill edits the order lists that market.data still refers to
+          DEV_BookSharedWithData,   \* deribit: a fill edits the order lists that market.data still refers to
+          DEV_HourRounded           \* mix: the hourly book of a bar is that of the NEAREST hour (round) instead of the last one (floor)
 
-Kinds == {"uni", "aave", "squeeth", "deribit", "gmx1", "gmx2"}
+Kinds == {"uni", "aave", "squeeth", "deribit", "gmx1", "gmx2", "mix"}
+(* "mix": a minutely pool next to the hourly option market in one run on the 1-minute grid.  A bar symbol stands for a BLOCK of
+   MixBlock one-minute bars (no resampling); an hour is 60 / MixBlock blocks; the option book every bar of an hour sees is the row of
+   the hour's first minute. *)
+MixBlock == 20
+BlocksPerHour == 60 \div MixBlock
 Hooks == <<"bb", "ob", "ab">>
 TwapSpan == 6                      \* TWAP_PERIOD - 1 minutes back from the current bar
 
@@ -75,6 +81,10 @@ StatusRows(c, i) ==
   CASE c.kind = "uni"     -> BarRows(c, i) \cup UniPriceRows(c, i)       \* close / liquidity: last, volumes: sum, price: first
     [] c.kind = "aave"    -> {FirstRow(c, IF DEV_StatusRowNext THEN i + 1 ELSE i)}
     [] c.kind = "squeeth" -> BarRows(c, i)                                \* squeeth row: first; its uniswap pool row: last / sum / first
+    [] c.kind = "mix"     -> BarRows(c, i) \cup (IF i = 0 THEN {1} ELSE {FirstRow(c, i) - 1})      \* the pool's rows of the block, its price
+                             \cup {FirstRow(c, IF DEV_HourRounded /\ i % BlocksPerHour # 0
+                                                THEN (i \div BlocksPerHour) * BlocksPerHour + BlocksPerHour   \* minutes 31..59 round up
+                                                ELSE (i \div BlocksPerHour) * BlocksPerHour)}                 \* the hour's book
     [] OTHER              -> {FirstRow(c, i)}                             \* deribit book of the hour, gmx pool row
 
 (* squeeth TWAP: resampled bars j whose stamp lies in [now - 6 min, now] (minutes: c.F * j) *)
@@ -84,7 +94,9 @@ TwapRows(c, i) ==
        IN  {FirstRow(c, j) : j \in {x \in 0 .. (i + 1) : c.F * i - TwapSpan + d <= c.F * x /\ c.F * x <= c.F * i + d}}
 
 (* token price frame, resampled with first(); for uniswap it is derived from the pool's `price` column *)
-PriceRows(c, i) == IF c.kind = "uni" THEN UniPriceRows(c, i) ELSE {FirstRow(c, i)}
+PriceRows(c, i) == IF c.kind = "uni" THEN UniPriceRows(c, i)
+                   ELSE IF c.kind = "mix" THEN BarRows(c, i) \cup (IF i = 0 THEN {1} ELSE {FirstRow(c, i) - 1})
+                   ELSE {FirstRow(c, i)}
 
 AcctPriceRows(c, i) == IF DEV_AccountPriceNext /\ i % 3 = 2 THEN PriceRows(c, i + 1) ELSE PriceRows(c, i)
 
